@@ -24,6 +24,15 @@ func main() {
 		cmdFunc(os.Args[2:])
 	case "check":
 		cmdCheck(os.Args[2:])
+	case "modset":
+		w := load("/repo")
+		for _, k := range w.ListFuncs() {
+			if matched(os.Args[2], k) {
+				fmt.Println(k, w.ModSetList(w.Funcs[k]))
+			}
+		}
+	case "baseline":
+		cmdBaseline(os.Args[2:])
 	default:
 		fmt.Fprintln(os.Stderr, "unknown command")
 		os.Exit(2)
@@ -132,5 +141,40 @@ func matched(pat, k string) bool {
 }
 
 func cmdCheck(args []string) {
-	fmt.Println("not yet")
+	fs := flag.NewFlagSet("check", flag.ExitOnError)
+	tier := fs.String("tier", "", "quick|thorough")
+	dir := fs.String("repo", "/repo", "repository")
+	vdir := fs.String("verif", "/verif", "verif directory")
+	to := fs.Int("t", 0, "solver timeout seconds")
+	verbose := fs.Bool("v", false, "verbose")
+	only := fs.String("only", "", "development: only functions matching")
+	var prop string
+	if len(args) > 0 && !strings.HasPrefix(args[0], "-") {
+		prop = args[0]
+		args = args[1:]
+	}
+	fs.Parse(args)
+	if prop == "" {
+		prop = fs.Arg(0)
+	}
+	if *tier == "" {
+		*tier = os.Getenv("VERIF_TIER")
+	}
+	if *tier == "" {
+		*tier = "quick"
+	}
+	var seed int64
+	fmt.Sscan(os.Getenv("VERIF_SEED"), &seed)
+	w := load(*dir)
+	os.Exit(vc.RunCheck(w, vc.CheckOpts{Prop: prop, Tier: *tier, Seed: seed, VerifDir: *vdir, Timeout: *to, Verbose: *verbose, Only: *only}))
+}
+
+func cmdBaseline(args []string) {
+	w := load("/repo")
+	for _, p := range args {
+		if err := vc.WriteBaseline(w, p, "/verif"); err != nil {
+			fmt.Fprintln(os.Stderr, err)
+			os.Exit(1)
+		}
+	}
 }
